@@ -34,6 +34,7 @@ type op struct {
 	Lim     int    `json:"lim,omitempty"`
 	ID      uint64 `json:"id,omitempty"`
 	Filters []byte `json:"filters,omitempty"`
+	NoCb    bool   `json:"nocb,omitempty"` // wrapdebug: debug.New(store, nil, filters...) - no access callback (model: the log filter is constantly false = mask 0)
 	Script  [][]op `json:"script,omitempty"` // iter / iterkeys only: what the consumer does to the store at callback j
 }
 
@@ -67,6 +68,9 @@ func (o op) coq() string {
 	case "wrapflush":
 		return "OpWrapFlush " + h
 	case "wrapdebug":
+		if o.NoCb {
+			return fmt.Sprintf("OpWrapDebug %s %s nocb_filters", h, vx.N(o.ID))
+		}
 		return fmt.Sprintf("OpWrapDebug %s %s %s", h, vx.N(o.ID), vx.Bytes(o.Filters))
 	case "realm":
 		return "OpRealm " + h
@@ -349,6 +353,9 @@ func (im *impl) do(o op) (res obs) {
 		for i, f := range o.Filters {
 			fl[i] = debug.Command(f)
 		}
+		if o.NoCb {
+			cb = nil
+		}
 		im.views = append(im.views, debug.New(s, cb, fl...))
 		return obs{Kind: "ok"}
 	case "realm":
@@ -630,6 +637,9 @@ func (r *ref) do(o op) obs {
 				mask |= f
 			}
 		}
+		if o.NoCb {
+			mask = 0 // nothing to report to
+		}
 		r.views = append(r.views, refView{v.realm, append([]wrap{{id: o.ID, mask: mask}}, v.stack...)})
 		return ok
 	case "realm":
@@ -887,8 +897,10 @@ func (g *gen) setup() []op {
 
 func (g *gen) wrapDebug(v int) op {
 	var fl []byte
-	switch g.r.Intn(4) {
+	switch g.r.Intn(5) {
 	case 0: // no filter = all commands
+	case 4:
+		fl = []byte{255} // all commands, spelled out
 	case 1:
 		fl = []byte{byte(1 << g.r.Intn(8))}
 	case 2:
@@ -896,7 +908,53 @@ func (g *gen) wrapDebug(v int) op {
 	default:
 		fl = []byte{0}
 	}
-	return op{K: "wrapdebug", H: v, ID: uint64(1 + g.r.Intn(3)), Filters: fl}
+	// (round 5) one debug wrapper in three has no access callback
+	return op{K: "wrapdebug", H: v, ID: uint64(1 + g.r.Intn(3)), Filters: fl, NoCb: g.r.Chance(1, 3)}
+}
+
+// wrapperCorners (round 5): wrapper option corner values. For every debug configuration - callback nil / present x filter
+// absent (= all commands), each single command, all commands spelled out, the zero filter - and four stackings (debug on the
+// root, a realm view OF the debug store, flushkv over debug, debug over flushkv over a nil-callback debug) one history that
+// sends every command, direct and through a batch, through the wrapper.
+func wrapperCorners() [][]op {
+	var out [][]op
+	filters := [][]byte{nil, {255}, {0}}
+	for i := 0; i < 8; i++ {
+		filters = append(filters, []byte{1 << i})
+	}
+	for _, nocb := range []bool{true, false} {
+		for _, fl := range filters {
+			for stack := 0; stack < 4; stack++ {
+				h := []op{{K: "set", H: 0, A: b(0x61, 1), B: b(1)}, {K: "set", H: 0, A: b(0x61, 2), B: b(2)}, {K: "set", H: 0, A: b(0x62), B: b(3)}}
+				w := op{K: "wrapdebug", H: 0, ID: 1, Filters: fl, NoCb: nocb}
+				v := 1 // the view under test
+				p := []byte{0x61}
+				switch stack {
+				case 0:
+					h = append(h, w)
+				case 1:
+					h = append(h, w, op{K: "withrealm", H: 1, A: b(0x61)})
+					v, p = 2, nil
+				case 2:
+					h = append(h, w, op{K: "wrapflush", H: 1})
+					v = 2
+				case 3:
+					w2 := w
+					w2.H, w2.ID = 2, 2
+					h = append(h, op{K: "wrapdebug", H: 0, ID: 3, NoCb: true}, op{K: "wrapflush", H: 1}, w2)
+					v = 3
+				}
+				k := func(x ...byte) []byte { return append(cp(p), x...) }
+				h = append(h, op{K: "get", H: v, A: k(1)}, op{K: "has", H: v, A: k(2)}, op{K: "set", H: v, A: k(3), B: b(4)}, op{K: "delete", H: v, A: k(1)},
+					op{K: "iter", H: v, A: k(), Lim: 100}, op{K: "iterkeys", H: v, A: k(), Lim: 100, Dir: 2},
+					op{K: "batched", H: v}, op{K: "bset", H: 0, A: k(5), B: b(5)}, op{K: "bdel", H: 0, A: k(2)}, op{K: "bdel", H: 0, A: k(9)}, op{K: "bcommit", H: 0},
+					op{K: "iter", H: 0, Lim: 100}, op{K: "delprefix", H: v, A: k(3)}, op{K: "flush", H: v}, op{K: "iter", H: 0, Lim: 100},
+					op{K: "clear", H: v}, op{K: "iter", H: 0, Lim: 100}, op{K: "realm", H: v})
+				out = append(out, h)
+			}
+		}
+	}
+	return out
 }
 
 func (g *gen) next() op {
@@ -1305,6 +1363,9 @@ func main() {
 	case "exh":
 		exhaustive(cf, st, *maxLen)
 	default:
+		for _, h := range wrapperCorners() {
+			emit(cf, st, h, "directed-wrapper-corners")
+		}
 		for _, h := range directed() {
 			emit(cf, st, h, "directed")
 		}
